@@ -99,6 +99,12 @@ def det4(m):
 # ---- extraction
 
 
+def slot_counters(fn):
+    """Names advanced by `+= 1` inside a loop of fn."""
+    return {n.target.id for lp in ast.walk(fn) if isinstance(lp, ast.For) for n in ast.walk(lp)
+            if isinstance(n, ast.AugAssign) and isinstance(n.target, ast.Name) and isinstance(n.op, ast.Add) and isinstance(n.value, ast.Constant) and n.value.value == 1}
+
+
 def extract(ctx, adjacency):
     """Return dict: regions = [(xt0, xt1, xr0, xr1, weight/omega) as 4-var polys], counts, tensor checks."""
     m = ctx.repo.mod(DG)
@@ -144,18 +150,34 @@ def extract(ctx, adjacency):
     if gname is None:
         raise AnalysisError("duffy_galerkin.rule no longer imports the Gauss rule")
     env = {params[0]: order_atom, params[1]: adjacency, gname: gauss_rule}
-    it = Interp(m, fn, env, {"globals": {"_np": Opq("_np", "module")}, "counters": {"index"}})
+    # the locals by role: the returned triple is (test points, trial points, weights) by position - that is what callers
+    # unpack; the slot counter is the name advanced by one inside the point loops
+    rets = [st for st in tail if isinstance(st, ast.Return)]
+    if len(rets) != 1 or not (isinstance(rets[0].value, ast.Tuple) and len(rets[0].value.elts) == 3 and all(isinstance(x, ast.Name) for x in rets[0].value.elts)) or len({x.id for x in rets[0].value.elts}) != 3:
+        raise AnalysisError("duffy_galerkin.rule: the rule does not end in `return <test points>, <trial points>, <weights>` of three distinct locals")
+    PT, PR, W = (x.id for x in rets[0].value.elts)
+    ctrs = sorted(slot_counters(fn))
+    if len(ctrs) != 1:
+        raise AnalysisError("duffy_galerkin.rule: no single slot counter advanced by one in the point loops (%s)" % ctrs)
+    CTR = ctrs[0]
+    it = Interp(m, fn, env, {"globals": {"_np": Opq("_np", "module")}, "counters": {CTR}})
     it.block(head2)
     e = it.env
-    for need in ("points_test", "points_trial", "weights", "index", "tensor_points", "tensor_weights", "number_of_points", "number_of_reg_points"):
+    for need in (PT, PR, W, CTR):
         if need not in e:
-            raise AnalysisError("duffy_galerkin.rule: local `%s` vanished" % need)
-    R = symex._try_int(e["index"])
+            raise AnalysisError("duffy_galerkin.rule: local `%s` is not set for adjacency %r" % (need, adjacency))
+    aux = [v for k, v in e.items() if isinstance(v, Arr) and v.kind != "input" and k not in (PT, PR, W)]
+    aux2, aux1 = [a for a in aux if a.ndim == 2], [a for a in aux if a.ndim == 1]
+    if len(aux2) != 1 or len(aux1) != 1:
+        raise AnalysisError("duffy_galerkin.rule: tensor Gauss point / weight arrays not identified (2-d: %d, 1-d: %d)" % (len(aux2), len(aux1)))
+    R = symex._try_int(e[CTR])
     if R is None:
         raise AnalysisError("duffy rule: region counter is not literal per iteration")
     # identify the two loop variables from the tensor point reads
     regions = []
-    pt, pr, w = e["points_test"], e["points_trial"], e["weights"]
+    pt, pr, w = e[PT], e[PR], e[W]
+    if not (isinstance(pt, Arr) and isinstance(pr, Arr) and isinstance(w, Arr) and pt.ndim == 2 and pr.ndim == 2 and w.ndim == 1):
+        raise AnalysisError("duffy_galerkin.rule: returned values are not (2-d points, 2-d points, 1-d weights)")
     loopvars = sorted({a for st in pt.stores for a in symex._deep_atoms(st[2]) if a.startswith("‹ι")})
     if len(loopvars) != 2:
         raise AnalysisError("duffy rule: expected two tensor-point loop variables, found %s" % loopvars)
@@ -163,7 +185,7 @@ def extract(ctx, adjacency):
     # every rule; decide by range order of creation instead: the outer loop variable has the smaller counter
     tvar, rvar = loopvars  # names are ‹ιname<k>›; sorted puts test_ind before trial_ind only by name; verify by nesting
     t, r = V.atom(tvar), V.atom(rvar)
-    tp, tw = e["tensor_points"], e["tensor_weights"]
+    tp, tw = aux2[0], aux1[0]
     # tensor construction: tensor_points[0, i*n+j] = xreg[j], [1, ...] = xreg[i], weights = wreg[i]*wreg[j]
     i_, j_ = symex.fresh("i"), symex.fresh("j")
     symex.RANGES[i_], symex.RANGES[j_] = n1, n1
@@ -173,8 +195,9 @@ def extract(ctx, adjacency):
         and it.read(tp, [V.const(1), I_ * n1 + J_], fn).eq(opaque_atom("xreg", [I_]))
         and it.read(tw, [I_ * n1 + J_], fn).eq(opaque_atom("wreg", [I_]) * opaque_atom("wreg", [J_]))
     )
-    nreg_ok = symex.tov(e["number_of_reg_points"]).eq(n1 * n1)
-    npts_ok = symex.tov(e["number_of_points"]).eq(V.const(R) * n1 * n1 * n1 * n1)
+    nreg_ok = all(a.shape is not None and symex.tov(a.shape[-1]).eq(n1 * n1) for a in (tp, tw))
+    want_n = V.const(R) * n1 * n1 * n1 * n1
+    npts_ok = all(a.shape is not None and symex.tov(a.shape[-1]).eq(want_n) for a in (pt, pr, w)) and all(symex.tov(a.shape[0]).eq(V.const(2)) for a in (pt, pr, tp))
     lv_ok = all(symex.RANGES.get(v) is not None and symex.RANGES[v].eq(n1 * n1) for v in (tvar, rvar))
 
     def atom_name(v):
@@ -209,16 +232,16 @@ def extract(ctx, adjacency):
     for st in tail:
         if isinstance(st, ast.AugAssign) and isinstance(st.op, ast.Sub):
             tg, vl = ast.unparse(st.target), ast.unparse(st.value)
-            for nm in ("points_test", "points_trial"):
+            for nm in (PT, PR):
                 if tg == "%s[0, :]" % nm and vl == "%s[1, :]" % nm:
                     shear.add(nm)
         elif isinstance(st, ast.Return) and isinstance(st.value, ast.Tuple):
-            ret_ok = [ast.unparse(x) for x in st.value.elts] == ["points_test", "points_trial", "weights"]
+            ret_ok = True  # (shape of the return statement established above; which array is which is decided by position)
         else:
             raise AnalysisError("duffy_galerkin.rule: unexpected statement in the post-processing tail: %s" % ast.unparse(st)[:60])
     return {
         "regions": regions, "R": R, "guard_ok": guard_ok, "tensor_ok": tens_ok and nreg_ok and lv_ok, "npts_ok": npts_ok,
-        "shear_ok": shear == {"points_test", "points_trial"}, "ret_ok": ret_ok, "line": fn.lineno,
+        "shear_ok": shear == {PT, PR}, "ret_ok": ret_ok, "line": fn.lineno, "counter": CTR,
     }
 
 
@@ -258,12 +281,12 @@ def check(ctx, max_degree=3):
         resets = []
         for lp in [n for n in ast.walk(fnr) if isinstance(n, ast.For)]:
             for n in ast.walk(lp):
-                if isinstance(n, ast.Assign) and any(isinstance(t, ast.Name) and t.id == "index" for t in n.targets):
+                if isinstance(n, ast.Assign) and any(isinstance(t, ast.Name) and t.id == d["counter"] for t in n.targets):
                     resets.append(n.lineno)
-                elif isinstance(n, ast.AugAssign) and isinstance(n.target, ast.Name) and n.target.id == "index" and not (isinstance(n.op, ast.Add) and isinstance(n.value, ast.Constant) and n.value.value == 1):
+                elif isinstance(n, ast.AugAssign) and isinstance(n.target, ast.Name) and n.target.id == d["counter"] and not (isinstance(n.op, ast.Add) and isinstance(n.value, ast.Constant) and n.value.value == 1):
                     resets.append(n.lineno)
         if resets:
-            probs.append("the slot counter `index` is reassigned (not advanced by one) inside the point loops at line(s) %s: later iterations overwrite earlier points" % sorted(set(resets)))
+            probs.append("the slot counter is reassigned (not advanced by one) inside the point loops at line(s) %s: later iterations overwrite earlier points" % sorted(set(resets)))
         if not d["tensor_ok"]:
             probs.append("tensor Gauss points/weights are not (x_j, x_i), w_i*w_j at slot i*n+j")
         if not d["npts_ok"]:
